@@ -8,9 +8,11 @@ LEVEL_TEXT["C12"] = (
     "y[k] = sum_j coeffs()[j] x(k-j) (over R and C, no conjugation). Over R: NLMS, leak 1, noise-free: squared misalignment changes by "
     "exactly -mu e^2 (2(p+eps) - mu p)/(p+eps)^2 per sample, hence never increases for 0 < mu < 2, along every call of process. "
     "Tie: executable model vs implementation, bit-exact on every emitted case (real/complex, lengths 2..64, step/leak/forgetting/"
-    "diagonal-load grids, random lock schedules, framings incl. empty/1/len-1/len, size-mismatch throws). "
+    "diagonal-load grids, random lock schedules, framings incl. empty/1/len-1/len, size-mismatch throws, scale classes 1e-300..1e140 with denormal / "
+    "negative-zero samples and boundary step sizes, one single call above 2^17 samples by digest). "
     "Measured only (oracle, long double): convergence below 1e-6 on white input for NLMS and RLS, sample-by-sample agreement with the "
-    "extended-precision reference recursion, real RLS = exponentially weighted, diagonally regularised least squares (batch normal equations)."
+    "extended-precision reference recursion (relative, absolute floor 1e-280 next to the underflow threshold), bit-identity of a long single call with the "
+    "same stream in small frames, copies of filter objects, call-to-call monotonicity of the NLMS misalignment, real RLS = exponentially weighted, diagonally regularised least squares (batch normal equations)."
 )
 
 PROPS["C12"] = {
@@ -21,8 +23,23 @@ PROPS["C12"] = {
             "random arbitrary input/desired pairs on horizons <= 3 len + 24 over lengths 2..64 (edge lengths 2,3,4,5,7,8,16,31,32,33,63,64 favoured), "
             "input kinds white / scaled 1e-3..1e3 / zero stretches / impulsive / dc, desired = noise-free system, noisy system, unrelated; "
             "NLMS step in (0,2), LMS step across 1%..90% of 2/(3 len power), leak in {1, 0.9999, 0.99, 0.9}, forgetting 0.9..1, diagonal load 1e-2..1e4, "
-            "four framing styles, random lock/unlock schedules, size-mismatch calls; real RLS vs batch weighted least squares at check points of horizons <= 4 len + 8; "
-            "convergence: NLMS 8 steps + random x lengths {2,3,8,16,64} (thorough 11 lengths), RLS 6 forgetting x 7 loads + random x the same lengths; "
+            "four framing styles, random lock/unlock schedules, size-mismatch calls; "
+            "scale classes: input at absolute scales 1e-300, 1e-150, 1e-17, 1e-8, 1, 1e8, 1e100 (RLS also 1e+-140 with the diagonal load scaled by 1/power, "
+            "and unmatched loads), unknown system at 1e-8 / 1 / 1e8, NLMS step from the smallest denormal over (0, eps) and 1 to 2 - ulp, 2, 0, -0, "
+            "LMS step 1e-300 .. 0.9 of the stable bound, leakage {1, 1 - ulp, 0.5, 1e-8, 1e-300, 0}, forgetting {1, 1 - ulp, 0.999999, 0.95, 0.9}, "
+            "exact-zero and negative-zero runs of len-1 .. 2 len+3 samples, denormal samples, exact powers of two, desired exact zero / negative zero, "
+            "rejected calls (one side empty, off by one, off by up to len, as the first call) after about every third call, operands passed as temporaries; "
+            "copies of the filter object mid-stream (copy-construct, vector(n, proto), copy-assign over a used filter, returned temporary) while the original "
+            "is fed other data; a kept Result must survive later calls; "
+            "long single calls: one process() call of 2^16+r, 2^17+r, 2^18+r, 2^16+1, 2^17+1, 2^18+1, k*65536, k*49152 (thorough also 2^20+r) samples for LMS, NLMS "
+            "(len 2..64) and RLS (len 2..8), as the first call or after small ones, with rejected long calls around it and a second, locked, long call, "
+            "inside white streams with silent stretches longer than the delay line — per-call oracles, reference recursion, convergence and bit-identity with "
+            "the same stream fed in frames of <= 1000 samples, desired signal noise-free (convergence) or noisy (adaptation never settles: every later bit depends on every update) "
+            "(quick: two long calls per filter and type - one just above 2^17, one above 2^18 or a large multiple of 49152/65536 (RLS: above 2^16 and above 2^17), "
+            "one of the two noisy; one goes through the model by digest); "
+            "real RLS vs batch weighted least squares at check points of horizons <= 4 len + 8; "
+            "convergence: NLMS 8 steps + random x lengths {2,3,8,16,64} (thorough 11 lengths), RLS 6 forgetting x 7 loads + random x the same lengths, "
+            "and at input scales 1e-4/1e8/1e100 (NLMS), 1e-100/1e-8/1e8/1e100 (RLS, load scaled) with the system at 1e-8/1/1e8; "
             "distinct = distinct scenarios (every scenario has its own case seed); non-trivial = all",
     "technique": "Lean 4 refinement proof (buffer-indexed implementation model -> clean per-sample recursion, generic in the scalar), "
                  "exact NLMS misalignment identity over R, model/implementation correspondence (bit-exact today), "
